@@ -200,7 +200,7 @@ META = {
                 'biom/util.py': ['biom_open', 'is_gzip']},
     'bounds': {'quick': {'shapes': '2x2 (+3x3 / 2x3 spot configurations)', 'metadata': '6 menus', 'ids': '4 menus'},
                'thorough': {'shapes': '2x2, 2x3, 3x2 x all menus'}},
-    'outside': ['the real HDF5 library: string encodings it applies itself, NUL handling, compression filters, files on disk', 'the operating system under biom_open (replaced by checks/fsmodel.py) '
-                'sniffing (needs a real file)', 'ID / metadata text beyond the menus', 'bit-identity of float64 payloads through HDF5 (trusted: float64 stored exactly)'],
+    'outside': ['the real HDF5 library: string encodings it applies itself, NUL handling, compression filters, files on disk', 'the operating system under biom_open (replaced by checks/fsmodel.py)'
+               '', 'ID / metadata text beyond the menus', 'bit-identity of float64 payloads through HDF5 (trusted: float64 stored exactly)'],
     'assumptions': ['h5py model contract: numeric arrays and byte strings are stored faithfully; vlen-str datasets read back as bytes, string attributes as str'],
 }
